@@ -46,7 +46,7 @@ func init() {
 		ID: "C01", Level: "model_checking",
 		Rule: "explicit-state BFS over all sequences of Add(v) on a real sketch, v from an alphabet derived from the mapping (zeros, sub-minimum magnitudes, range ends, bin lower bounds and their float predecessors, ordinary values); a case is one distinct concrete sketch state together with the multiset it absorbed; every state is queried at every q of Q(n) = {0, 1, k/(n-1) and both float neighbours, mid-points, 5e-324, 1-2^-53} and each answer must be within alpha (plus the stated rounding allowance) of an order statistic at floor or ceil of q(n-1); q=0/1 must land in the bin of the true extreme; distinct_nontrivial counts distinct (content, multiset) pairs",
 		Assumptions: []string{
-			"rounding allowance eps(v)=2^-48+2^-50(|ln v|+|offset| ln gamma) relative, on top of alpha (DESIGN.md section 5)",
+			"rounding allowance eps(v)=2^-48+2^-49(|ln v|+|offset| ln gamma) relative, on top of alpha (DESIGN.md section 5)",
 			"a value whose magnitude equals the smallest indexable value exactly may count as 0 or as itself",
 			"inputs longer than the depth bound and values outside the alphabet are not explored; bin membership at every bin edge is covered by C03",
 		},
